@@ -213,7 +213,12 @@ class _Conv:
                     return [("decl", t.id, tc, shape, self.expr(v.args[0]), {"const"}, line)]
                 if f == "np.full":
                     tc = self.dtype(v)
-                    return [("decl", t.id, tc, self.shape_of(v.args[0]), ("fill", self.expr(v.args[1])), set(), line)]
+                    fv = v.args[1]
+                    while isinstance(fv, (ast.List, ast.Tuple)) and len(fv.elts) == 1:
+                        fv = fv.elts[0]  # numpy broadcasts a nested one-element fill value to every entry
+                    if isinstance(fv, (ast.List, ast.Tuple)):
+                        raise KsymError("np.full with a non-scalar fill value")
+                    return [("decl", t.id, tc, self.shape_of(v.args[0]), ("fill", self.expr(fv)), set(), line)]
                 if f in ("np.empty",):
                     return [("decl", t.id, self.dtype(v), self.shape_of(v.args[0]), None, set(), line)]
                 if f in ("np.zeros",):
